@@ -76,7 +76,13 @@ class Parser:
             _violation(self.run, SITE, "conf-value-with-equals-crashes" if any(l.count("=") > 1 for l in lines) else "conf-file-crashes",
                        "reading the conf file %s raises %s" % (lines, real.detail), dict(info))
             return
-        line, toks = U.encode_case(self.tab, variant, entries, real.args)
+        try:
+            line, toks = U.encode_case(self.tab, variant, entries, real.args)
+        except U.HookUnavailable as e:
+            # the per-key parse outcomes are the only source of the model's tokens
+            self.run.broke("correspondence", "model input unavailable: %s (the merge model cannot be compared with the parser)" % e)
+            self.tab = None
+            return
         if line is None:
             # some value is rejected by its own branch of _parse_conf: the whole run must stop
             self.run.count("malformed value (both sides reject)", section="correspondence")
